@@ -900,4 +900,39 @@ theorem trimmed_bytes_differ :
     ccValue (fun _ s => .ok (.str s)) "yaml".toList "k: |\n  v\n".toList = .ok (.str "k: |\n  v\n".toList) := by
   constructor <;> decide
 
+/-! ### round 5e: the loader WITH the merging of `buildStructFieldsInfo`; a load is a function of (type, tree) -/
+
+/-- on every type whose flattened fields do not repeat a lower-cased key the loader with the merging IS the loader all
+other theorems speak about. -/
+theorem loadTreeM_eq_loadTreeO (o : Opts) (fs : Fields) (j : J) (h : hasDup (infoFields fs).keys = false) :
+    loadTreeM o fs j = loadTreeO o fs j := by
+  simp only [loadTreeM, loadTreeO, loadTreeWithO, infoConflict, infoOf, h, Bool.false_or,
+    show infoFieldsM fs = some (infoFields fs) from infoFieldsM_eq_infoFields fs h]
+
+/-- format independence for EVERY struct type of the family, the merged ones included (two embedded structs that share a
+struct-valued key): the three front ends hand the same tree to the same pure loader. -/
+theorem formats_agree_merge (o : Opts) (fs : Fields) (d : J) (t : T) (hd : plainDoc d = true) (ht : embT d = some t) :
+    loadTreeM o fs (yamlGlue (embY d)) = loadTreeM o fs d ∧ loadTreeM o fs (tomlGlue t) = loadTreeM o fs d := by
+  rw [yaml_normal_form d hd, toml_normal_form d t hd ht]
+  exact ⟨rfl, rfl⟩
+
+/-- **a load is a function of (type, tree)**: in any sequence of loads in one process, two loads of the same (type, tree)
+return the same - the second load equals the first, whatever was loaded in between (the info is rebuilt by every call:
+Tie `tie_structInfoFresh`, `tie_cPkgVars`). -/
+theorem load_is_function_of_type_and_tree (o : Opts) (calls : List (Fields × J)) (i k : Nat) (c : Fields × J)
+    (hi : calls[i]? = some c) (hk : calls[k]? = some c) : (loadAllM o calls)[i]? = (loadAllM o calls)[k]? := by
+  simp [loadAllM, List.getElem?_map, hi, hk]
+
+/-- WITNESS (seeded C17-10): with the info of the first embedded struct KEPT between loads and merged into in place, the
+first load builds the merged info and leaves `in ↦ {a, b}` behind; the second load then meets `b` twice: a conflict. -/
+theorem shared_info_second_load_conflicts :
+    infoFieldsShared (infoFields (.cons { name := "X".toList, key := "in".toList, optional := false, embedded := false } (.struct mergeTyA) .nil))
+        (infoFields (.cons { name := "Y".toList, key := "IN".toList, optional := false, embedded := false } (.struct mergeTyB) .nil))
+      = some (.cons "in".toList (.node (.cons "a".toList (.node .nil) (.cons "b".toList (.node .nil) .nil))) .nil) ∧
+    infoFieldsShared (.cons "in".toList (.node (.cons "a".toList (.node .nil) (.cons "b".toList (.node .nil) .nil))) .nil)
+        (infoFields (.cons { name := "Y".toList, key := "IN".toList, optional := false, embedded := false } (.struct mergeTyB) .nil))
+      = none := by decide
+
+example : (loadAllM {} [(mergeTy, .obj .nil), (nameTy, .obj .nil), (mergeTy, .obj .nil)]).length = 3 := by simp [loadAllM]
+
 end GoZero.C17
